@@ -6,6 +6,10 @@ import DryocVerif.Spec.Ed25519
 import DryocVerif.Proofs.Curve
 import DryocVerif.Properties.C05
 import DryocVerif.Proofs.GenCurve
+import DryocVerif.Proofs.KeyFormsExtra
+import DryocVerif.Proofs.SignVectors
+import DryocVerif.Model.KeyForms
+import DryocVerif.Model.Argon2
 /-
 C13 — deterministic key pairs and the Ed25519 → Curve25519 conversion
 (/repo/src/classic/crypto_box_impl.rs, crypto_kx.rs, crypto_sign_ed25519.rs, keypair.rs).
@@ -17,7 +21,20 @@ C13 — deterministic key pairs and the Ed25519 → Curve25519 conversion
   pair was derived from (so the converted pair is a pair), and equals libsodium's function;
 * `converted_pair_consistent`: the converted public key is the X25519 public key of the
   converted secret key, *given* that the birational map commutes with scalar multiplication
-  (a property of the curve arithmetic, stated as a hypothesis and checked on an instance).
+  (a property of the curve arithmetic, stated as a hypothesis and checked on an instance) —
+  the hypothesis is essentially the conclusion, see its docstring;
+* what IS proved about the public-key conversion: it agrees with libsodium's wherever libsodium
+  accepts (`pkToCurve_of_spec`), fails exactly when the key does not decompress
+  (`pkToCurve_err_iff`), never panics;
+* `seedKeypair_eq_rfc`: the signing public key is RFC 8032's, given the single fact that reducing
+  the clamped scalar mod L does not change the encoded multiple of B (i.e. `[L]B = O`);
+* the remaining key-pair forms (`Model/KeyForms.lean`): `KeyPair::from_secret_key`,
+  `PwHash::derive_keypair`, `SigningKeyPair::from_secret_key` and the `*_seed_keypair_inplace`
+  functions, the latter independent of what the caller's buffers held before.
+
+All statements about X25519 public keys (`scalarmultBase`) are about the model's ladder shape; they
+transfer to the Rust `crypto_scalarmult_curve25519_base` (Edwards table, scalar reduced mod L,
+`to_montgomery`) under the unproved curve fact `C05.BaseEdwardsOK`.
 -/
 namespace DryocVerif.Properties.C13
 open DryocVerif DryocVerif.Model.Curve
@@ -32,7 +49,9 @@ theorem boxSeedKeypair_sk (P : Prims) (seed : Bytes) :
     (boxSeedKeypair P seed).2 = (P.sha512 seed).take 32 := rfl
 
 /-- NaCl/libsodium `crypto_box_seed_keypair`, for a seed of any length:
-sk = first half of SHA-512(seed), pk = X25519(sk, 9) -/
+sk = first half of SHA-512(seed), pk = X25519(sk, 9).  (The public key is the MODEL's
+`scalarmultBase`, the ladder; for the Rust function, which goes through the Edwards base-point
+table, this needs the unproved curve fact `C05.BaseEdwardsOK`.) -/
 theorem boxSeedKeypair_spec (seed : Bytes) :
     boxSeedKeypair specPrims seed =
       (Spec.X25519.x25519Base ((Spec.Sha512.sha512 seed).take 32), (Spec.Sha512.sha512 seed).take 32) := by
@@ -49,7 +68,8 @@ theorem boxSeedKeypair_sk_length (seed : Bytes) : (boxSeedKeypair specPrims seed
 theorem kxSeedKeypair_pk (P : Prims) (seed : Bytes) :
     (kxSeedKeypair P seed).1 = scalarmultBase P (kxSeedKeypair P seed).2 := rfl
 
-/-- libsodium `crypto_kx_seed_keypair`: sk = BLAKE2b-256(seed) (unkeyed), pk = X25519(sk, 9) -/
+/-- libsodium `crypto_kx_seed_keypair`: sk = BLAKE2b-256(seed) (unkeyed), pk = X25519(sk, 9)
+(public key: as for `boxSeedKeypair_spec`, modulo `C05.BaseEdwardsOK` for the Rust function) -/
 theorem kxSeedKeypair_spec (seed : Bytes) :
     kxSeedKeypair specPrims seed =
       (Spec.X25519.x25519Base (Spec.Blake2b.hash 32 [] seed), Spec.Blake2b.hash 32 [] seed) := by
@@ -151,9 +171,16 @@ def MapCommutes (P : Prims) (s : Bytes) : Prop :=
 /-- If the birational map commutes with scalar multiplication on clamped 32-byte scalars,
 then converting both halves of a signing key pair gives a consistent X25519 pair:
 `pk_to_curve(pk) = scalarmult_base(sk_to_curve(sk))`.
-What the model contributes: both conversions start from the same hash of the same 32 bytes,
+
+CAVEAT: the hypothesis `MapCommutes` (for all clamped scalars) is essentially the conclusion.
+It is the curve fact "the birational map (x, y) ↦ u = (1 + y)/(1 − y) from edwards25519 to
+curve25519 is a group homomorphism, so it commutes with scalar multiplication, and `[L]B = O`"
+— which this development does not prove (no group law).  What the theorem contributes is only
+the bookkeeping of dryoc's code: both conversions start from the same hash of the same 32 bytes,
 the scalar of the signing key is that clamped value mod L, and the second clamp inside
-`scalarmult_base` is the identity. -/
+`scalarmult_base` is the identity.  The curve fact itself is evaluated on instances below and
+checked against the implementation by the differential tests.  Unconditional facts about
+`pk_to_curve25519` are `pkToCurve_of_spec`, `pkToCurve_err_iff`, `pkToCurve_never_panics`. -/
 theorem converted_pair_consistent (P : Prims) (H : Bytes → Bytes) (seed : Bytes)
     (hseed : seed.length = 32) (hH : 32 ≤ (H seed).length)
     (hmap : ∀ s : Bytes, s.length = 32 → clamp s = s → MapCommutes P s) :
@@ -170,6 +197,252 @@ theorem converted_pair_consistent_sha512 (P : Prims) (seed : Bytes) (hseed : see
       .ok (scalarmultBase P (Model.Sign.skToCurve Spec.Sha512.sha512
         (Model.Sign.seedKeypair Spec.Sha512.sha512 seed).2)) :=
   converted_pair_consistent P _ seed hseed (by rw [Proofs.Curve.sha512_length]; decide) hmap
+
+/-! ### `crypto_sign_ed25519_pk_to_curve25519`: what is provable without the group law -/
+
+/-- Wherever libsodium's `crypto_sign_ed25519_pk_to_curve25519` accepts a public key, dryoc's
+returns `Ok` with the same 32 bytes.  (libsodium's lenient decompression yields Z = 1 and a
+reduced y, so this is field algebra: `y·Z⁻¹ = y`, and both sides compute (1 + y)/(1 − y) mod p.) -/
+theorem pkToCurve_of_spec (pk out : Bytes) (h : Spec.Ed25519.pkToCurve pk = some out) :
+    Model.Sign.pkToCurve pk = .ok out :=
+  Proofs.KeyFormsExtra.pkToCurve_of_spec pk out h
+
+/-- dryoc's conversion fails exactly when the key does not decompress (wrong length or x² not a
+square).  It is therefore MORE permissive than libsodium's, which additionally rejects small-order
+keys and keys outside the main subgroup (`pkToCurve_more_permissive` below). -/
+theorem pkToCurve_err_iff (pk : Bytes) :
+    Model.Sign.pkToCurve pk = .err ↔ Spec.Ed25519.decodePointLax pk = none :=
+  Proofs.KeyFormsExtra.pkToCurve_err_iff pk
+
+theorem pkToCurve_never_panics (pk : Bytes) : Model.Sign.pkToCurve pk ≠ .panic :=
+  Proofs.KeyFormsExtra.pkToCurve_never_panics pk
+
+/-- the value, for a key that decompresses to `A`: u = (1 + y)/(1 − y) -/
+theorem pkToCurve_value (pk : Bytes) (A : Spec.Ed25519.Point)
+    (h : Spec.Ed25519.decodePointLax pk = some A) :
+    Model.Sign.pkToCurve pk = .ok (toLE 32 (Spec.X25519.fmul (Spec.X25519.fadd 1 A.Y)
+      (Spec.X25519.finv (Spec.X25519.fsub 1 A.Y)))) :=
+  Proofs.KeyFormsExtra.pkToCurve_of_decode pk A h
+
+/-- non-vacuity witness for `pkToCurve_of_spec`: libsodium's function accepts the RFC 8032 TEST 1
+public key (kernel evaluation incl. the `[L]A` subgroup test) -/
+example : ∃ out, Spec.Ed25519.pkToCurve Proofs.SignVectors.tvPk = some out ∧
+    Model.Sign.pkToCurve Proofs.SignVectors.tvPk = .ok out := by
+  have h : (Spec.Ed25519.pkToCurve Proofs.SignVectors.tvPk).isSome = true := by decide +kernel
+  obtain ⟨out, ho⟩ := Option.isSome_iff_exists.mp h
+  exact ⟨out, ho, pkToCurve_of_spec _ _ ho⟩
+
+/-- the converse of `pkToCurve_of_spec` fails: the small-order key `1 ‖ 0³¹` (the neutral element)
+is rejected by libsodium and converted (to u = 0) by dryoc -/
+theorem pkToCurve_more_permissive :
+    Spec.Ed25519.pkToCurve (1 :: zeros 31) = none ∧
+    Model.Sign.pkToCurve (1 :: zeros 31) = .ok (zeros 32) := by decide +kernel
+
+/-- witness for `pkToCurve_err_iff`, failing side: y = 2 is not on the curve -/
+example : Model.Sign.pkToCurve (2 :: zeros 31) = .err :=
+  (pkToCurve_err_iff _).2 (by decide +kernel)
+
+/-! ### RFC 8032 key generation -/
+
+/-- The public key of `crypto_sign_seed_keypair` is RFC 8032 §5.1.5's, provided that reducing the
+clamped secret scalar modulo L (dryoc: `Scalar::from_bytes_mod_order`) does not change the encoded
+multiple of the base point.  That hypothesis is the single curve fact `[L]B = O` (plus "equal points
+encode equally"); everything else — hashing, clamping, little-endian decoding — is proved.
+
+DIFFERENCE from the statement first proposed (hypothesis `scalarMul (a % L) B = scalarMul a B`, an
+equality of projective representations): that hypothesis is FALSE on real instances — the two
+computations give different (X : Y : Z : T) for the same point (`scalarMul_mod_L_repr_ne` below) —
+so the hypothesis here is on the encodings.  The original form is kept as
+`seedKeypair_eq_rfc_of_point_eq`. -/
+theorem seedKeypair_eq_rfc (seed : Bytes)
+    (hL : Spec.Ed25519.encodePoint (Spec.Ed25519.scalarMul
+            (le (Model.Sign.clampHash (Spec.Sha512.sha512 seed)) % Spec.Ed25519.L) Spec.Ed25519.B) =
+          Spec.Ed25519.encodePoint (Spec.Ed25519.scalarMul
+            (le (Model.Sign.clampHash (Spec.Sha512.sha512 seed))) Spec.Ed25519.B)) :
+    (Model.Sign.seedKeypair Spec.Sha512.sha512 seed).1 = Spec.Ed25519.publicKey seed :=
+  Proofs.KeyFormsExtra.seedKeypair_eq_rfc seed hL
+
+/-- the whole pair: sk = seed ‖ RFC public key -/
+theorem seedKeypair_eq_rfc_pair (seed : Bytes)
+    (hL : Spec.Ed25519.encodePoint (Spec.Ed25519.scalarMul
+            (le (Model.Sign.clampHash (Spec.Sha512.sha512 seed)) % Spec.Ed25519.L) Spec.Ed25519.B) =
+          Spec.Ed25519.encodePoint (Spec.Ed25519.scalarMul
+            (le (Model.Sign.clampHash (Spec.Sha512.sha512 seed))) Spec.Ed25519.B)) :
+    Model.Sign.seedKeypair Spec.Sha512.sha512 seed =
+      (Spec.Ed25519.publicKey seed, seed ++ Spec.Ed25519.publicKey seed) := by
+  have h := seedKeypair_eq_rfc seed hL
+  rw [← h]; rfl
+
+/-- the originally proposed form (hypothesis: equal projective representations) -/
+theorem seedKeypair_eq_rfc_of_point_eq (seed : Bytes)
+    (hL : Spec.Ed25519.scalarMul
+            (le (Model.Sign.clampHash (Spec.Sha512.sha512 seed)) % Spec.Ed25519.L) Spec.Ed25519.B =
+          Spec.Ed25519.scalarMul
+            (le (Model.Sign.clampHash (Spec.Sha512.sha512 seed))) Spec.Ed25519.B) :
+    (Model.Sign.seedKeypair Spec.Sha512.sha512 seed).1 = Spec.Ed25519.publicKey seed :=
+  Proofs.KeyFormsExtra.seedKeypair_eq_rfc_of_point_eq seed hL
+
+/-- non-vacuity witness for `seedKeypair_eq_rfc`: its hypothesis holds for the RFC 8032 TEST 1 seed -/
+example :
+    Spec.Ed25519.encodePoint (Spec.Ed25519.scalarMul
+        (le (Model.Sign.clampHash (Spec.Sha512.sha512 Proofs.SignVectors.tvSeed)) % Spec.Ed25519.L)
+        Spec.Ed25519.B) =
+    Spec.Ed25519.encodePoint (Spec.Ed25519.scalarMul
+        (le (Model.Sign.clampHash (Spec.Sha512.sha512 Proofs.SignVectors.tvSeed))) Spec.Ed25519.B) := by
+  decide +kernel
+
+/-- counterexample to the hypothesis of `seedKeypair_eq_rfc_of_point_eq`: for the same seed the two
+projective representations differ (already in the Z coordinate) -/
+theorem scalarMul_mod_L_repr_ne :
+    (Spec.Ed25519.scalarMul
+        (le (Model.Sign.clampHash (Spec.Sha512.sha512 Proofs.SignVectors.tvSeed)) % Spec.Ed25519.L)
+        Spec.Ed25519.B).Z ≠
+    (Spec.Ed25519.scalarMul
+        (le (Model.Sign.clampHash (Spec.Sha512.sha512 Proofs.SignVectors.tvSeed))) Spec.Ed25519.B).Z := by
+  decide +kernel
+
+/-! ### `KeyPair::from_secret_key`, `PwHash::derive_keypair` -/
+
+open Model.KeyForms in
+/-- `KeyPair::from_secret_key`: the public key is the base-point multiple of the given secret key;
+the secret key is stored AS GIVEN (not clamped) -/
+theorem fromSecretKey_unfold (P : Prims) (sk : Bytes) :
+    fromSecretKey P sk = (scalarmultBase P sk, sk) := rfl
+
+open Model.KeyForms in
+/-- … the clamping happens inside the multiplication: the public key only depends on the clamped
+secret key (so e.g. flipping bit 255 or the low three bits of `sk` gives the same public key) -/
+theorem fromSecretKey_pk_clamp (P : Prims) (sk : Bytes) :
+    (fromSecretKey P (clamp sk)).1 = (fromSecretKey P sk).1 := by
+  show scalarmultBase P (clamp sk) = scalarmultBase P sk
+  simp only [scalarmultBase, Proofs.Curve.clamp_idem]
+
+open Model.KeyForms in
+/-- with the executable primitives: pk = X25519(sk, 9) -/
+theorem fromSecretKey_spec (sk : Bytes) (h : sk.length = 32) :
+    fromSecretKey specPrims sk = (Spec.X25519.x25519Base sk, sk) := by
+  rw [fromSecretKey_unfold, C05.scalarmultBase_eq sk h]
+
+open Model.KeyForms in
+/-- a key pair from `from_secret_key` and one from `crypto_box_seed_keypair` are built the same
+way from their secret keys -/
+theorem boxSeedKeypair_eq_fromSecretKey (P : Prims) (seed : Bytes) :
+    boxSeedKeypair P seed = fromSecretKey P ((P.sha512 seed).take 32) := rfl
+
+open Model.KeyForms in
+/-- `PwHash::derive_keypair`: the 32-byte password hash becomes the secret key, verbatim; the public
+key is its base-point multiple; an error or panic of the password hash is passed on unchanged -/
+theorem deriveKeypair_ok (P : Prims) (pwhash : Nat → Outcome Bytes) (sk : Bytes)
+    (h : pwhash 32 = .ok sk) : deriveKeypair P pwhash = .ok (fromSecretKey P sk) :=
+  Proofs.KeyFormsExtra.deriveKeypair_ok P pwhash sk h
+
+open Model.KeyForms in
+theorem deriveKeypair_err_iff (P : Prims) (pwhash : Nat → Outcome Bytes) :
+    deriveKeypair P pwhash = .err ↔ pwhash 32 = .err :=
+  Proofs.KeyFormsExtra.deriveKeypair_err_iff P pwhash
+
+open Model.KeyForms in
+theorem deriveKeypair_panic_iff (P : Prims) (pwhash : Nat → Outcome Bytes) :
+    deriveKeypair P pwhash = .panic ↔ pwhash 32 = .panic :=
+  Proofs.KeyFormsExtra.deriveKeypair_panic_iff P pwhash
+
+open Model.KeyForms in
+/-- with the executable primitives and a 32-byte hash: (X25519(h, 9), h) -/
+theorem deriveKeypair_spec (pwhash : Nat → Outcome Bytes) (sk : Bytes)
+    (h : pwhash 32 = .ok sk) (hl : sk.length = 32) :
+    deriveKeypair specPrims pwhash = .ok (Spec.X25519.x25519Base sk, sk) := by
+  rw [deriveKeypair_ok _ _ _ h, fromSecretKey_spec sk hl]
+
+open Model.KeyForms in
+/-- instantiated with the model of dryoc's `crypto_pwhash` (Argon2): the derived pair is
+`from_secret_key` of the 32-byte Argon2 output for (password, salt, opslimit, memlimit, alg) -/
+theorem deriveKeypair_argon2 (P : Prims) (pwd salt : Bytes) (ops mem alg : Nat) (sk : Bytes)
+    (h : Model.Argon2.cryptoPwhash 32 pwd salt ops mem alg = .ok sk) :
+    deriveKeypair P (fun n => Model.Argon2.cryptoPwhash n pwd salt ops mem alg) =
+      .ok (scalarmultBase P sk, sk) :=
+  deriveKeypair_ok P _ sk h
+
+open Model.KeyForms in
+/-- non-vacuity witness for `deriveKeypair_spec` (a stand-in hash returning 0³²) -/
+example : deriveKeypair specPrims (fun n => .ok (zeros n)) =
+    .ok (Spec.X25519.x25519Base (zeros 32), zeros 32) :=
+  deriveKeypair_spec _ (zeros 32) rfl (by decide)
+
+/-! ### the in-place seed forms -/
+
+open Model.KeyForms in
+/-- `crypto_box_seed_keypair_inplace` into two 32-byte buffers: never fails, and the buffers then
+hold exactly `crypto_box_seed_keypair(seed)` — the same values whatever the buffers held before -/
+theorem boxSeedKeypairInplace_eq (pk0 sk0 seed : Bytes)
+    (hpk : pk0.length = 32) (hsk : sk0.length = 32) :
+    boxSeedKeypairInplace specPrims pk0 sk0 seed = .ok (boxSeedKeypair specPrims seed) :=
+  Proofs.KeyFormsExtra.boxSeedKeypairInplace_spec pk0 sk0 seed hpk hsk
+
+open Model.KeyForms in
+/-- independence of the prior contents, stated directly -/
+theorem boxSeedKeypairInplace_indep (pk0 sk0 pk0' sk0' seed : Bytes)
+    (hpk : pk0.length = 32) (hsk : sk0.length = 32) (hpk' : pk0'.length = 32) (hsk' : sk0'.length = 32) :
+    boxSeedKeypairInplace specPrims pk0 sk0 seed = boxSeedKeypairInplace specPrims pk0' sk0' seed := by
+  rw [boxSeedKeypairInplace_eq _ _ _ hpk hsk, boxSeedKeypairInplace_eq _ _ _ hpk' hsk']
+
+open Model.KeyForms in
+/-- abstract primitives: needs a hash of ≥ 32 bytes and 32-byte ladder outputs -/
+theorem boxSeedKeypairInplace_eq' (P : Prims) (pk0 sk0 seed : Bytes)
+    (hpk : pk0.length = 32) (hsk : sk0.length = 32) (hH : 32 ≤ (P.sha512 seed).length)
+    (hL : ∀ n, (scalarmultBase P n).length = 32) :
+    boxSeedKeypairInplace P pk0 sk0 seed = .ok (boxSeedKeypair P seed) :=
+  Proofs.KeyFormsExtra.boxSeedKeypairInplace_eq P pk0 sk0 seed hpk hsk hH hL
+
+open Model.KeyForms in
+/-- `crypto_sign_seed_keypair_inplace` into a 32-byte and a 64-byte buffer with a 32-byte seed:
+never fails (none of the three `copy_from_slice` can panic), and the buffers then hold exactly
+`crypto_sign_seed_keypair(seed)`, whatever they held before -/
+theorem signSeedKeypairInplace_eq (H : Bytes → Bytes) (pk0 sk0 seed : Bytes)
+    (hpk : pk0.length = 32) (hsk : sk0.length = 64) (hseed : seed.length = 32) :
+    signSeedKeypairInplace H pk0 sk0 seed = .ok (Model.Sign.seedKeypair H seed) :=
+  Proofs.KeyFormsExtra.signSeedKeypairInplace_eq H pk0 sk0 seed hpk hsk hseed
+
+open Model.KeyForms in
+theorem signSeedKeypairInplace_indep (H : Bytes → Bytes) (pk0 sk0 pk0' sk0' seed : Bytes)
+    (hpk : pk0.length = 32) (hsk : sk0.length = 64) (hpk' : pk0'.length = 32) (hsk' : sk0'.length = 64)
+    (hseed : seed.length = 32) :
+    signSeedKeypairInplace H pk0 sk0 seed = signSeedKeypairInplace H pk0' sk0' seed := by
+  rw [signSeedKeypairInplace_eq H _ _ _ hpk hsk hseed, signSeedKeypairInplace_eq H _ _ _ hpk' hsk' hseed]
+
+open Model.KeyForms in
+/-- a buffer of the wrong size makes `copy_from_slice` panic (not expressible through the public
+API, whose buffers are fixed-size arrays) -/
+example : signSeedKeypairInplace (fun _ => zeros 64) (zeros 32) (zeros 63) (zeros 32) = .panic := by
+  decide +kernel
+
+open Model.KeyForms in
+/-- non-vacuity witness: dirty buffers, abstract hash -/
+example (H : Bytes → Bytes) :
+    signSeedKeypairInplace H (List.replicate 32 0xaa) (List.replicate 64 0x55) (zeros 32) =
+      .ok (Model.Sign.seedKeypair H (zeros 32)) :=
+  signSeedKeypairInplace_eq H _ _ _ (by decide) (by decide) (by decide)
+
+open Model.KeyForms in
+/-- `SigningKeyPair::from_secret_key`: only the first 32 bytes (the seed) of the given secret key are
+used; the pair is re-derived from them -/
+theorem signFromSecretKey_ok (H : Bytes → Bytes) (sk : Bytes) (h : 32 ≤ sk.length) :
+    signFromSecretKey H sk = .ok (Model.Sign.seedKeypair H (sk.take 32)) :=
+  Proofs.KeyFormsExtra.signFromSecretKey_ok H sk h
+
+open Model.KeyForms in
+/-- on a secret key produced by `seed_keypair` it reproduces that key pair -/
+theorem signFromSecretKey_roundtrip (H : Bytes → Bytes) (seed : Bytes) (h : seed.length = 32) :
+    signFromSecretKey H (Model.Sign.seedKeypair H seed).2 = .ok (Model.Sign.seedKeypair H seed) := by
+  have hl := (sign_seedKeypair_lengths H seed h).2
+  rw [signFromSecretKey_ok H _ (by omega), (sign_seedKeypair_take H seed h).1]
+
+open Model.KeyForms in
+/-- … and it ignores the public-key half of its argument (a mismatching second half is silently
+replaced) -/
+theorem signFromSecretKey_ignores_pk (H : Bytes → Bytes) (seed junk : Bytes) (h : seed.length = 32) :
+    signFromSecretKey H (seed ++ junk) = .ok (Model.Sign.seedKeypair H seed) := by
+  rw [signFromSecretKey_ok H _ (by simp; omega), List.take_append_of_le_length (by omega),
+    List.take_of_length_le (by omega)]
 
 /-! ### non-vacuity -/
 
